@@ -21,7 +21,10 @@ FmtTemplates == {
     <<T(<<"a">>), HolePart("x", 1), T(<<"é">>)>>,
     <<HolePart("y", 1), HolePart("x", 0)>>,
     <<T(<<>>), HolePart("", 1), T(<<>>), T(<<"a">>)>>,
-    <<T(<<"a">>), T(<<"é">>), HolePart("q", 1), HolePart("x", 1), T(<<"a">>)>>
+    <<T(<<"a">>), T(<<"é">>), HolePart("q", 1), HolePart("x", 1), T(<<"a">>)>>,
+    \* text with characters Debug may escape (outside the equality domain; see DebugDontCare)
+    <<T(<<"a", "\"">>), HolePart("x", 0), T(<<"\\">>)>>,
+    <<T(<<"\"">>)>>
 }
 RenderDomain == Templates \cup FmtTemplates
 
@@ -78,7 +81,10 @@ MacroLits == UNION {{q \in [1..n -> MacroTokens] : DistinctHoles(q)} : n \in 0..
              \cup UNION {{q \in [1..n -> MacroTokens \cup MoreTokens] :
                             DistinctHoles(q) /\ \E i \in 1..n : q[i] \in MoreTokens} : n \in 1..2}
 \* the macros every literal is expanded by (level A: the same template, the same message)
-MacroForms == {"tpl", "evt", "emit", "format"}
+\* "hooks": the expansion written out with every hook call dispatched through its trait
+\* (`__PrivateFmtHook for Part`, `__PrivateKeyHook for Key`), which is what a call site gets where the
+\* inherent const fns of the same names are not in reach (generic code over the hook traits)
+MacroForms == {"tpl", "evt", "emit", "format", "hooks"}
 MacroPart(tok) ==
     IF tok.k = "c" THEN TextPart(<<tok.c>>)
     ELSE IF tok.k = "eo" THEN TextPart(<<"{">>)
